@@ -2,6 +2,7 @@ package main
 
 import (
 	"fmt"
+	"go/types"
 	"go/token"
 	"sort"
 	"strings"
@@ -125,6 +126,7 @@ func runC15(c *Ctx) {
 	checkFileWriters(c)
 	checkConfigKeys(c)
 	checkStoreTree(c)
+	checkTreeNamesAndGitDir(c)
 }
 
 // refTemplates: templates of a ref-name argument; an element of a ListRefs result is replaced by the
@@ -222,6 +224,30 @@ func checkRefspecs(c *Ctx) {
 		}
 		sort.Strings(all)
 		c.Check(ok, "R15.3", "GoGitRepo."+t.m+":refspec", w.FnPos(fn), strings.Join(all, " | "), fmt.Sprintf("refspecs are %q, expected %q: refs outside the git-bug namespaces could be fetched or pushed", all, t.want))
+	}
+	// fetch must not follow tags
+	if ff := w.Method("repository", "GoGitRepo", "FetchRefs"); ff != nil {
+		noTags := int64(-1)
+		if gp := w.ByPath["github.com/go-git/go-git/v5"]; gp != nil {
+			if k, ok := gp.Types.Scope().Lookup("NoTags").(*types.Const); ok {
+				if v, ok := constantInt(k); ok {
+					noTags = v
+				}
+			}
+		}
+		ok := false
+		for _, b := range ff.Blocks {
+			for _, ins := range b.Instrs {
+				if st, isSt := ins.(*ssa.Store); isSt {
+					if fa, isFA := st.Addr.(*ssa.FieldAddr); isFA && fieldName(fa) == "Tags" && strings.HasSuffix(typeShortName(fa.X.Type()), "FetchOptions") {
+						if k, isK := constInt(st.Val); isK && k == noTags {
+							ok = true
+						}
+					}
+				}
+			}
+		}
+		c.Check(ok, "R15.3", "GoGitRepo.FetchRefs:no-tags", w.FnPos(ff), "FetchOptions.Tags = NoTags", "the fetch follows tags (go-git's default): remote tags pointing at fetched or known objects are created as refs/tags/… in the host repository")
 	}
 	// callers pass namespaces only
 	n := 0
@@ -497,6 +523,104 @@ func checkStoreTree(c *Ctx) {
 	}
 }
 
+// R15.7 / R15.8
+func checkTreeNamesAndGitDir(c *Ctx) {
+	w := c.W
+	c.Doc("R15.7", "the entries of the attached-files tree get distinct names: the number formatted into the name is a counter carried across all operations of the pack and incremented once per entry")
+	c.Doc("R15.8", "isGitDir answers true only after all of HEAD, objects and refs were found, and false as soon as one is missing: git-bug never treats a linked work tree's admin directory (or another partial directory) as the repository")
+	mk := w.Method("entity/dag", "operationPack", "makeExtraTree")
+	if mk == nil {
+		c.Undecided("R15.7", "anchor:operationPack.makeExtraTree", "entity/dag", "not found")
+	} else {
+		c.seeFn(funcName(mk))
+		ok, why := false, "no numbered entry name found"
+		for _, cl := range CallsNamed(mk, "fmt.Sprintf") {
+			c.Sites++
+			_, ops, isSp := sprintfFormat(cl.Value())
+			if !isSp || len(ops) != 1 {
+				continue
+			}
+			outer := outermostLoopHeader(cl.Block())
+			carried := false
+			seen := map[ssa.Value]bool{}
+			var walk func(v ssa.Value)
+			walk = func(v ssa.Value) {
+				if seen[v] {
+					return
+				}
+				seen[v] = true
+				if phi, isPhi := v.(*ssa.Phi); isPhi {
+					if phi.Block() == outer {
+						carried = true
+					}
+					for _, e := range phi.Edges {
+						walk(e)
+					}
+				}
+				if bo, isBo := v.(*ssa.BinOp); isBo {
+					walk(bo.X)
+				}
+			}
+			walk(ops[0])
+			// incremented in the block that appends the entry
+			inc := false
+			for _, r := range *ops[0].Referrers() {
+				if bo, isBo := r.(*ssa.BinOp); isBo && bo.Op == token.ADD && bo.Block() == cl.Block() {
+					if k, isK := constInt(bo.Y); isK && k == 1 {
+						inc = true
+					}
+				}
+			}
+			if carried && inc {
+				ok = true
+			} else if !carried {
+				why = "the number in the entry name restarts for every operation: two operations with attachments produce duplicate names in one tree (git fsck: duplicateEntries)"
+			} else {
+				why = "the counter is not incremented with each entry"
+			}
+		}
+		c.Check(ok, "R15.7", "operationPack.makeExtraTree:unique-names", w.FnPos(mk), "names numbered by a pack-wide counter", why)
+	}
+	ig := w.Func("repository", "isGitDir")
+	if ig == nil {
+		c.Undecided("R15.8", "anchor:repository.isGitDir", "repository", "not found")
+		return
+	}
+	c.seeFn(funcName(ig))
+	markers := map[string]bool{}
+	for _, b := range ig.Blocks {
+		for _, ins := range b.Instrs {
+			if st, isSt := ins.(*ssa.Store); isSt {
+				if s, isS := constString(st.Val); isS {
+					markers[s] = true
+				}
+			}
+		}
+	}
+	okMarkers := markers["HEAD"] && markers["objects"] && markers["refs"]
+	okTrue, okFalse := true, false
+	for _, r := range Returns(ig) {
+		c.Sites++
+		if k, isK := r.Results[0].(*ssa.Const); isK && k.Value != nil && k.Value.String() == "true" {
+			if enclosingLoopHeader(r.Block()) != nil || r.Block().Comment != "rangeindex.done" && r.Block().Comment != "for.done" {
+				okTrue = false
+			}
+		}
+	}
+	for _, cl := range CallsNamed(ig, "os.Stat") {
+		// on the error edge (possibly after the not-exist test) false is returned
+		for _, fb := range failureBlocks(cl.Value()) {
+			if strictlyFails(fb, func(r *ssa.Return) bool {
+				k, isK := r.Results[0].(*ssa.Const)
+				return isK && k.Value != nil && k.Value.String() == "false"
+			}) {
+				okFalse = true
+			}
+		}
+	}
+	c.Check(okMarkers && okTrue && okFalse, "R15.8", "repository.isGitDir:all-markers", w.FnPos(ig), "true only after HEAD, objects and refs were all found", "isGitDir can answer true without all of HEAD, objects and refs being present (or does not answer false when one is missing)")
+}
+
 func storedFieldValuesAny(fn *ssa.Function, base ssa.Value, field string) []*ssa.Store {
 	return storedFieldValues(fn, base, field)
 }
@@ -729,54 +853,139 @@ func runC14(c *Ctx) {
 		return
 	}
 	c.seeFn(funcName(rw))
-	steps := []struct {
-		key  string
-		pred func(cl *Call) bool
-	}{
-		{"RemoveAll", func(cl *Call) bool { return cl.Name == "cache.RepoCache.RemoveAll" }},
-		{"ClearUserIdentity", func(cl *Call) bool { return cl.Name == "cache.RepoCache.ClearUserIdentity" }},
-		{"config-section", func(cl *Call) bool {
-			if !strings.HasSuffix(cl.Name, ".RemoveAll") || !strings.Contains(cl.Name, "Config") {
-				return false
-			}
-			s, ok := constString(cl.Args()[0])
-			return ok && s == "git-bug"
-		}},
-		{"Close", func(cl *Call) bool { return cl.Name == "cache.RepoCache.Close" && returnsAfter(cl) }},
-		{"local-storage", func(cl *Call) bool {
-			if !strings.HasSuffix(cl.Name, ".RemoveAll") || !strings.Contains(cl.Name, "LocalStorage") {
-				return false
-			}
-			s, ok := constString(cl.Args()[0])
-			return ok && s == "."
-		}},
-	}
-	var prev *Call
-	for _, st := range steps {
-		var found *Call
+	find := func(pred func(cl *Call) bool) *Call {
 		for _, cl := range Calls(rw) {
-			if st.pred(cl) && cl.Value() != nil {
-				if prev == nil || dominatedBySuccess(prev.Value(), cl.Instr) {
-					found = cl
+			if pred(cl) && cl.Value() != nil {
+				return cl
+			}
+		}
+		return nil
+	}
+	entities := find(func(cl *Call) bool { return cl.Name == "cache.RepoCache.RemoveAll" })
+	cfg := find(func(cl *Call) bool {
+		if !strings.HasSuffix(cl.Name, ".RemoveAll") || !strings.Contains(cl.Name, "Config") {
+			return false
+		}
+		s, ok := constString(cl.Args()[0])
+		return ok && s == "git-bug"
+	})
+	closeC := find(func(cl *Call) bool { return cl.Name == "cache.RepoCache.Close" && !inErrorExit(cl) })
+	storage := find(func(cl *Call) bool {
+		if !strings.HasSuffix(cl.Name, ".RemoveAll") || !strings.Contains(cl.Name, "LocalStorage") {
+			return false
+		}
+		s, ok := constString(cl.Args()[0])
+		return ok && s == "."
+	})
+	c.Sites += 4
+	if entities == nil || cfg == nil || closeC == nil || storage == nil {
+		missing := []string{}
+		for k, v := range map[string]*Call{"entity removal": entities, "configuration section removal": cfg, "backend close": closeC, "local storage removal": storage} {
+			if v == nil {
+				missing = append(missing, k)
+			}
+		}
+		sort.Strings(missing)
+		c.Violate("R14.3", "runWipe:steps", w.FnPos(rw), "wipe lacks the step(s): "+strings.Join(missing, ", ")+" — something of git-bug is left behind")
+		return
+	}
+	for _, st := range []struct {
+		key string
+		cl  *Call
+	}{{"RemoveAll", entities}, {"config-section", cfg}, {"Close", closeC}, {"local-storage", storage}} {
+		c.Check(errorPropagated(st.cl.Value(), nil), "R14.3", "runWipe:"+st.key+":error", w.InstrPos(st.cl.Instr), "error returned", "the error of step "+st.key+" is dropped")
+	}
+	// order: entities → config → close → storage
+	c.Check(dominatedBySuccess(entities.Value(), cfg.Instr) && dominatedBySuccess(entities.Value(), closeC.Instr), "R14.3", "runWipe:entities-first", w.InstrPos(entities.Instr), "entities are removed first", "the configuration or the backend is torn down before (or without) the entities having been removed")
+	// the configuration removal may only be skipped when there is nothing to remove
+	okCfg := true
+	whyCfg := ""
+	var guard *ssa.If
+	for _, cc := range controlConds(cfg.Block(), nil) {
+		if e := errEdge(cc.If, defaultFail); e >= 0 && e != cc.Edge {
+			continue
+		}
+		isLenOfReadAll := false
+		if bo, isBo := cc.If.Cond.(*ssa.BinOp); isBo {
+			for _, side := range []ssa.Value{bo.X, bo.Y} {
+				if lc, isCall := side.(*ssa.Call); isCall {
+					if bi, isB := lc.Common().Value.(*ssa.Builtin); isB && bi.Name() == "len" {
+						if ra := hasOriginCall(lc.Common().Args[0], "repository.ConfigRead.ReadAll", 0); ra != nil {
+							if s, ok := constString(ra.Common().Args[0]); ok && s == "git-bug" {
+								isLenOfReadAll = true
+							}
+						}
+					}
 				}
 			}
 		}
-		c.Sites++
-		if found == nil {
-			c.Violate("R14.3", "runWipe:"+st.key, w.FnPos(rw), "wipe does not perform the step "+st.key+" (after the successful previous step): something of git-bug is left behind")
-			return
+		if isLenOfReadAll {
+			guard = cc.If
+			continue
 		}
-		// error propagated
-		c.Check(errorPropagated(found.Value(), nil), "R14.3", "runWipe:"+st.key, w.InstrPos(found.Instr), "performed after the previous step succeeded, error returned", "the error of step "+st.key+" is dropped")
-		prev = found
+		okCfg, whyCfg = false, "the configuration removal is conditional on "+w.InstrPos(cc.If)
 	}
-	// success return only after the last step
+	if okCfg {
+		from := cfg.Block()
+		if guard != nil {
+			// on the "has keys" edge the removal cannot be bypassed on the way to Close
+			for i, sb := range guard.Block().Succs {
+				if sb.Dominates(cfg.Block()) {
+					_ = i
+					from = sb
+				}
+			}
+			if !guard.Block().Dominates(closeC.Block()) {
+				okCfg, whyCfg = false, "the backend can be closed without the configuration test having run"
+			}
+		} else if !dominatedBySuccess(cfg.Value(), closeC.Instr) {
+			okCfg, whyCfg = false, "the backend is closed without the configuration section having been removed"
+		}
+		if okCfg {
+			if bad, p, _ := pathSearch(rw, nil, from, func(i ssa.Instruction) bool { return i == closeC.Instr }, func(i ssa.Instruction) bool { return i == cfg.Instr }, false); bad && guard != nil {
+				okCfg, whyCfg = false, "with configuration keys present, Close is reachable without removing them: "+blocksString(w, p)
+			}
+		}
+	}
+	c.Check(okCfg, "R14.3", "runWipe:config-section", w.InstrPos(cfg.Instr), "the git-bug section is removed whenever it has keys", whyCfg)
+	c.Check(dominatedBySuccess(closeC.Value(), storage.Instr), "R14.3", "runWipe:close-before-storage", w.InstrPos(storage.Instr), "the local storage is removed after the backend was closed", "the local storage is removed while the backend is still open (its files are recreated on close) or without closing")
+	// the identity selection lives in the section removed
+	if ik, ok := pkgConstString(w, "entities/identity", "identityConfigKey"); ok {
+		c.Check(strings.HasPrefix(ik, "git-bug."), "R14.3", "runWipe:identity-selection-in-section", w.FnPos(rw), "the user identity key "+ik+" is in the section removed", "the user identity selection ("+ik+") is not covered by the section wipe removes")
+	}
+	// success only after the last step
 	for _, r := range Returns(rw) {
 		if returnKind(r) == RetError {
 			continue
 		}
-		c.Check(prev != nil && (dominatedBySuccess(prev.Value(), r) || returnsValue(r, prev.Value())), "R14.3", "runWipe:success-after-all-steps", w.InstrPos(r), "success only after every step", "wipe can report success before all steps were performed")
+		c.Check(dominatedBySuccess(storage.Value(), r) || returnsValue(r, storage.Value()), "R14.3", "runWipe:success-after-all-steps", w.InstrPos(r), "success only after every step", "wipe can report success before all steps were performed")
 	}
+	// every error exit before Close closes the backend
+	for _, r := range Returns(rw) {
+		if returnKind(r) != RetError {
+			continue
+		}
+		if closeC.Instr.Block().Dominates(r.Block()) {
+			continue
+		}
+		closed := false
+		for _, ins := range r.Block().Instrs {
+			if isBackendClose(ins) {
+				closed = true
+			}
+		}
+		c.Check(closed, "R14.3", "runWipe:error-exit-closes", w.InstrPos(r), "the backend is closed on this error exit", "an error exit of wipe leaves the backend open (lock file left behind)")
+	}
+}
+
+// inErrorExit: the call sits in a block that returns an error (cleanup on an error path)
+func inErrorExit(cl *Call) bool {
+	b := cl.Block()
+	if len(b.Instrs) == 0 {
+		return false
+	}
+	r, ok := b.Instrs[len(b.Instrs)-1].(*ssa.Return)
+	return ok && returnKind(r) == RetError && cl.Value() != nil && len(*cl.Value().Referrers()) == 0
 }
 
 func returnsAfter(cl *Call) bool { return true }
